@@ -124,13 +124,18 @@ func main() {
 		}
 	}
 
-	total := o.Count(350, 30000)
+	total := o.Count(300, 30000)
 	for c := 0; c < total; c++ {
 		f := fmts[r.Pick(len(fmts))]
 		env := pipe.Env{Header: r.Chance(0.5), Trailer: r.Chance(0.5), Ctx: "H1"}
 		var must []string
 		lateFail := false
-		switch r.Pick(10) {
+		dynFail := false
+		switch r.Pick(12) {
+		case 10, 11:
+			// failing declarations inside xpath_dynamic + the identical declarations as members
+			must = []string{"dyn-failing", "fuses", "plain"}
+			dynFail = true
 		case 7, 8:
 			// a record failing late (after the ancestor-anchored declarations were evaluated)
 			must = []string{"late-cast", "plain"}
@@ -177,13 +182,16 @@ func main() {
 		var in []byte
 		var recs []pipe.Rec
 		kind := "records"
-		if lateFail || env.Deep || r.Chance(0.7) || (f.Name == "json" && env.Header) {
+		if lateFail || dynFail || env.Deep || r.Chance(0.7) || (f.Name == "json" && env.Header) {
 			n := r.Between(2, 7)
 			recs = make([]pipe.Rec, n)
 			for i := range recs {
 				recs[i] = pipe.GenRec(r, f, false)
 				if lateFail && i > 0 && i < n-1 && r.Chance(0.5) {
 					recs[i].B = "9z" // fails in zcast, the last field evaluated
+				}
+				if dynFail && r.Chance(0.4) {
+					recs[i] = pipe.MakeFailing(recs[i], r.PickStr("multi-match", "custom-func"))
 				}
 				recs[i] = f.Place(r, env, recs[i])
 			}
@@ -284,6 +292,9 @@ func main() {
 		}
 		if lateFail {
 			sum.Hist("late-failing-record-with-ancestor-declarations")
+		}
+		if dynFail {
+			sum.Hist("failing-declaration-inside-xpath_dynamic")
 		}
 		if !own.Equal(ts[0]) {
 			sum.Fail("harness ingester loop (memo on) differs from Transform.Read: the built-in ingester no longer is release-read-parse(fresh ParseCtx)-marshal",
